@@ -71,14 +71,14 @@ Definition state_step (u : list val -> val -> val) (b st : list (Z * val)) : lis
 Record nstate : Type := mkN {
   ntime : Z;                    (* _current_time *)
   nrdd : rdd;                   (* _current_rdd *)
-  nqueue : list (list val);     (* queue source: batches not yet popped *)
+  nqueue : list (option (list val));  (* queue source: entries not yet popped (None = an explicit idle interval) *)
   nbuf : list rdd;              (* WindowedDStream._window *)
   nctr : Z;                     (* WindowedDStream._slide_counter *)
   nkv : list (Z * val) }.       (* StatefulDStream._state_rdd (initially EmptyRDD) *)
 
 Definition set_time (t : Z) (n : nstate) := mkN t (nrdd n) (nqueue n) (nbuf n) (nctr n) (nkv n).
 Definition set_rdd (r : rdd) (n : nstate) := mkN (ntime n) r (nqueue n) (nbuf n) (nctr n) (nkv n).
-Definition set_queue (q : list (list val)) (n : nstate) := mkN (ntime n) (nrdd n) q (nbuf n) (nctr n) (nkv n).
+Definition set_queue (q : list (option (list val))) (n : nstate) := mkN (ntime n) (nrdd n) q (nbuf n) (nctr n) (nkv n).
 Definition set_win (b : list rdd) (c : Z) (n : nstate) := mkN (ntime n) (nrdd n) (nqueue n) b c (nkv n).
 Definition set_kv (s : list (Z * val)) (n : nstate) := mkN (ntime n) (nrdd n) (nqueue n) (nbuf n) (nctr n) s.
 
@@ -104,8 +104,16 @@ Fixpoint all_mapvalues (l : list val) : option (list val) :=
   | v :: l' => match v_mapvalue v, all_mapvalues l' with Some a, Some r => Some (a :: r) | _, _ => None end
   end.
 
+(* ssc.queueStream(entries, oneAtATime=True, default=d).  An entry is a batch (a list, or an RDD: Some of its collect())
+   or None (the producer marks an idle interval: QueueStreamDeserializer turns it into an EmptyRDD); the default is handed
+   out, converted once, whenever the queue is EMPTY (QueueStream.get tests qsize() == 0, not the entry) -- None: an EmptyRDD. *)
+Record source : Type := mkSource { sq : list (option (list val)); sd : option (list val) }.
+Definition plain_source (q : list (list val)) : source := mkSource (map Some q) None.
+Definition src_tl (q : source) : source := mkSource (tl (sq q)) (sd q).
+Definition entry_rdd (e : option (list val)) : rdd := match e with Some b => RData b | None => REmpty end.
+
 Inductive node : Type :=
-| Src (q : list (list val))                        (* ssc.queueStream(q): oneAtATime, default None *)
+| Src (q : source)                                 (* ssc.queueStream(sq q, default = sd q) *)
 | Trans (f : tfun) (p : nat)                       (* TransformedDStream(prev = node p, f) *)
 | Window (w s : Z) (p : nat)                       (* WindowedDStream(prev = node p, w, s), durations in intervals *)
 | Stateful (u : list val -> val -> val) (p : nat)  (* StatefulDStream(prev = node p, u) *)
@@ -117,7 +125,7 @@ Record gstate : Type := mkG { gnodes : list nstate; glog : list logentry }.
 
 Definition n_init : nstate := mkN dstream_time_init RNone [] [] win_counter_init [].
 Definition init_node (nd : node) : nstate :=
-  match nd with Src q => set_queue q n_init | _ => n_init end.
+  match nd with Src q => set_queue (sq q) n_init | _ => n_init end.
 Definition init_state (g : list node) : gstate := mkG (map init_node g) [].
 
 Fixpoint upd {A} (i : nat) (f : A -> A) (l : list A) : list A :=
@@ -169,10 +177,10 @@ Definition apply_tfun (f : tfun) (t : Z) (r : rdd) : res (rdd * list logentry) :
   end.
 
 (* QueueStream.get + QueueStreamDeserializer: default None -> EmptyRDD *)
-Definition src_pop (n : nstate) : nstate :=
+Definition src_pop (d : option (list val)) (n : nstate) : nstate :=
   match nqueue n with
-  | [] => set_rdd REmpty n
-  | b :: q => set_queue q (set_rdd (RData b) n)
+  | [] => set_rdd (entry_rdd d) n                      (* q_size == 0: the default *)
+  | e :: q => set_queue q (set_rdd (entry_rdd e) n)    (* queue.get_nowait(), whatever the entry is *)
   end.
 
 (* while len(self._window) > self._window_duration: self._window.pop(0) *)
@@ -236,9 +244,9 @@ Fixpoint step (fuel : nat) (g : list node) (i : nat) (t : Z) (st : gstate) : gst
       match nth_error g i, nth_error (gnodes st) i with
       | Some nd, Some ns =>
           match nd with
-          | Src _ =>
+          | Src q =>
               if src_guard t (ntime ns) then (st, None)
-              else (put i (src_pop (set_time t ns)) st, None)
+              else (put i (src_pop (sd q) (set_time t ns)) st, None)
           | Trans f p =>
               if tr_guard t (ntime ns) then (st, None)
               else
@@ -343,20 +351,20 @@ Definition consumers_from (p : nat) (j0 k : nat) : list node :=
 Definition consumers (p : nat) (k : nat) : list node := consumers_from p 0 k.
 
 (* q.window(w, s) ; k x foreachRDD *)
-Definition prog_window (q : list (list val)) (w s : Z) (k : nat) : list node :=
+Definition prog_window (q : source) (w s : Z) (k : nat) : list node :=
   Src q :: Window w s 0 :: consumers 1 k.
 (* q.countByWindow(w, s) = window(w, s).mapPartitionsWithIndex(..).transform(setName).transform(reduce) ; k x foreachRDD *)
-Definition prog_count (q : list (list val)) (w s : Z) (k : nat) : list node :=
+Definition prog_count (q : source) (w s : Z) (k : nat) : list node :=
   Src q :: Window w s 0 :: Trans FCountParts 1 :: Trans FSetName 2 :: Trans FReduceAdd 3 :: consumers 4 k.
 (* q.updateStateByKey(u) ; k x foreachRDD *)
-Definition prog_state (q : list (list val)) (u : list val -> val -> val) (k : nat) : list node :=
+Definition prog_state (q : source) (u : list val -> val -> val) (k : nat) : list node :=
   Src q :: Stateful u 0 :: consumers 1 k.
 (* both on one source: q.window(w, s) with consumers 0..k-1 and q.updateStateByKey(u) with consumers k..2k-1 *)
-Definition prog_both (q : list (list val)) (w s : Z) (u : list val -> val -> val) (k : nat) : list node :=
+Definition prog_both (q : source) (w s : Z) (u : list val -> val -> val) (k : nat) : list node :=
   Src q :: Window w s 0 :: consumers 1 k ++ Stateful u 0 :: consumers_from (2 + k) k k.
 
 (* q.countByWindow(w, s) with consumers 0..k-1, then q.updateStateByKey(u) with consumers k..2k-1, on one source *)
-Definition prog_count_state (q : list (list val)) (w s : Z) (u : list val -> val -> val) (k : nat) : list node :=
+Definition prog_count_state (q : source) (w s : Z) (u : list val -> val -> val) (k : nat) : list node :=
   Src q :: Window w s 0 :: Trans FCountParts 1 :: Trans FSetName 2 :: Trans FReduceAdd 3 :: consumers 4 k
   ++ Stateful u 0 :: consumers_from (5 + k) k k.
 
@@ -364,14 +372,14 @@ Definition prog_count_state (q : list (list val)) (w s : Z) (u : list val -> val
    variant 0 q.map(INC) (three transformed streams)        1 q.filter(EVEN)        2 q.flatMap(dup) (two streams)
            3 q.mapValues(INC)        4 q.updateStateByKey(u)        5 q.union(q2), q2 = queueStream(tail of q's batches)
            6 q.transform(lambda rdd: rdd.map(INC)) *)
-Definition derived_parent (pv : Z) (u : list val -> val -> val) (q : list (list val)) : option (list node) :=
+Definition derived_parent (pv : Z) (u : list val -> val -> val) (q : source) : option (list node) :=
   match pv with
   | 0 => Some [Src q; Trans FMapInc 0; Trans FSetName 1; Trans FSetName 2]
   | 1 => Some [Src q; Trans FFilterEven 0]
   | 2 => Some [Src q; Trans FFlatDup 0; Trans FSetName 1]
   | 3 => Some [Src q; Trans FMapValuesInc 0]
   | 4 => Some [Src q; Stateful u 0]
-  | 5 => Some [Src q; Src (tl q); Union 0 1]
+  | 5 => Some [Src q; Src (src_tl q); Union 0 1]
   | 6 => Some [Src q; Trans FMapInc 0]
   | _ => None
   end.
@@ -383,6 +391,18 @@ Definition prog_window_over (count : bool) (pre : list node) (w s : Z) (k : nat)
              else [Window w s p] in
   let out := (p + length mid)%nat in
   pre ++ mid ++ consumers out k ++ [Trans (FCapture (Z.of_nat k)) p].
+
+(* ---- sibling windowed views on one source: for every view (count?, w, s) a window(w, s) [.count()] of stream 0 with one
+   capturing consumer (consumer j for the j-th view), registered view after view ---- *)
+Fixpoint views_nodes (base : nat) (j : Z) (views : list (bool * Z * Z)) : list node :=
+  match views with
+  | [] => []
+  | (false, w, s) :: vs => Window w s 0 :: Trans (FCapture j) base :: views_nodes (base + 2) (j + 1) vs
+  | (true, w, s) :: vs =>
+      Window w s 0 :: Trans FCountParts base :: Trans FSetName (base + 1) :: Trans FReduceAdd (base + 2)
+      :: Trans (FCapture j) (base + 3) :: views_nodes (base + 5) (j + 1) vs
+  end.
+Definition prog_views (q : source) (views : list (bool * Z * Z)) : list node := Src q :: views_nodes 1 0 views.
 
 (* ---- the library of update functions (Python twins in py/c11.py) ---- *)
 Definition z_of (v : val) : Z := match v with VInt z => z | _ => 0 end.
